@@ -201,6 +201,7 @@ void ev_periodic_start(EV_P_ ev_periodic *w)
 void ev_periodic_stop(EV_P_ ev_periodic *w)
 {
 	(void)loop;
+	w->pending = 0;        /* ev_clear_pending */
 	if (!w->active) return;
 	w->active = 0;
 	for (int i = 0; i < npers; i++) if (pers[i] == w) { pers[i] = pers[--npers]; break; }
@@ -208,7 +209,9 @@ void ev_periodic_stop(EV_P_ ev_periodic *w)
 void ev_child_start(EV_P_ ev_child *w) { (void)loop; w->active = 1; chld_pid[nchlds] = w->pid; chlds[nchlds++] = w; }
 void ev_child_stop(EV_P_ ev_child *w) { (void)loop; w->active = 0; }
 
-static void loop_iteration(ev_tstamp now)
+static void child_exit(int k, int status);
+
+static void loop_iteration(ev_tstamp now, int exit_k)
 {
 /* libev 4.33 periodics_reify + invoke_pending: due watchers (at < now) are re-armed through
  * reschedule_cb (or stopped) in heap order, then their callbacks run in the same order */
@@ -230,9 +233,17 @@ static void loop_iteration(ev_tstamp now)
 		} else {
 			ev_periodic_stop(&the_loop, top);
 		}
+		top->pending = 1;
 		pend[npend++] = top;
 	}
-	for (int i = 0; i < npend; i++) pend[i]->cb(&the_loop, pend[i], 0);
+	/* a child that was reaped in this iteration: its watcher is fed after the periodics and therefore
+	 * invoked before them (libev invokes the pending array from its end) */
+	if (exit_k >= 0) child_exit(exit_k, 0);
+	for (int i = 0; i < npend; i++) {
+		if (!pend[i]->pending) continue;        /* stopped meanwhile: ev_clear_pending */
+		pend[i]->pending = 0;
+		pend[i]->cb(&the_loop, pend[i], 0);
+	}
 }
 
 /* ---------------------------------------------------------------- helpers */
@@ -313,6 +324,16 @@ static void start_daemon(uid_t me)
 	echsd_inject_queues(ctx, spool);
 }
 
+static void child_exit(int k, int status)
+{
+	if (k >= 0 && k < nchlds && chlds[k]->active && chlds[k]->pid == chld_pid[k]) {
+		ev_child *c = chlds[k];
+		c->rpid = c->pid; c->rstatus = status;
+		c->cb(&the_loop, c, 0);
+		out("x");
+	} else out("nochild");
+}
+
 static void do_op(char *op)
 {
 	char *a[8]; int n = 0;
@@ -321,7 +342,11 @@ static void do_op(char *op)
 	int sp0 = nspawns;
 	if (n == 0) return;
 	if (!strcmp(a[0], "T") && n >= 2) {
-		loop_iteration(strtod(a[1], NULL));
+		loop_iteration(strtod(a[1], NULL), -1);
+		drain_spawns(sp0);
+	} else if (!strcmp(a[0], "TX") && n >= 3) {
+		/* a loop iteration in which the k-th child is reaped as well */
+		loop_iteration(strtod(a[1], NULL), atoi(a[2]));
 		drain_spawns(sp0);
 	} else if (!strcmp(a[0], "A") && n >= 3) {
 		static char txt[1 << 18];
@@ -351,13 +376,7 @@ static void do_op(char *op)
 		}
 		drain_spawns(sp0);
 	} else if (!strcmp(a[0], "X") && n >= 3) {
-		int k = atoi(a[1]);
-		if (k >= 0 && k < nchlds && chlds[k]->active && chlds[k]->pid == chld_pid[k]) {
-			ev_child *c = chlds[k];
-			c->rpid = c->pid; c->rstatus = atoi(a[2]);
-			c->cb(&the_loop, c, 0);
-			out("x");
-		} else out("nochild");
+		child_exit(atoi(a[1]), atoi(a[2]));
 		drain_spawns(sp0);
 	} else if (!strcmp(a[0], "Q")) {
 		struct { const char *uid; unsigned owner; uint64_t cur; size_t nrun, nsim; } r[4096]; int nr = 0;
@@ -452,7 +471,7 @@ int main(int argc, char **argv)
 		while (next < nops && guard++ < 64) {
 			/* a restarted daemon starts at the time of the last clock op */
 			start_now = 0;
-			for (int i = 0; i < next; i++) if (!strncmp(ops[i], "T ", 2)) start_now = strtod(ops[i] + 2, NULL);
+			for (int i = 0; i < next; i++) if (!strncmp(ops[i], "T ", 2) || !strncmp(ops[i], "TX ", 3)) start_now = strtod(strchr(ops[i], ' ') + 1, NULL);
 			int pfd[2]; if (pipe(pfd) < 0) break;
 			fflush(stdout);
 			pid_t c = fork();
